@@ -50,6 +50,7 @@ def cases(draw):
         own.append(ReportDef(id=f"own{i}", name=name, columns=cols, formats=draw(st.sampled_from([[], ["json"], ["csv"], ["json", "csv"]])),
                              timeformat=draw(st.sampled_from([None, "%d.%m.%Y", "%Y-%m-%d"]))))
     return {"kind": "ok", "spec": spec, "own": own, "csv": csvf, "channel": draw(st.sampled_from(["file", "dash", "noarg"])),
+            "glob": draw(st.sampled_from([[], [], ["--verbose"], ["--quiet"]])),
             "crlf": draw(st.booleans()), "tf": draw(st.sampled_from([None, "%d.%m.%y"]))}
 
 
@@ -159,12 +160,13 @@ def eval_case(case):
             return r  # the API itself rejects the text: C11's business
         sb.write("p.tjp", data)
         ch = case["channel"]
+        gl = case.get("glob", [])
         if ch == "file":
-            run = sb.run(["report"] + flags + ["p.tjp"])
+            run = sb.run(gl + ["report"] + flags + ["p.tjp"])
         elif ch == "dash":
-            run = sb.run(["report"] + flags + ["-"], stdin=data)
+            run = sb.run(gl + ["report"] + flags + ["-"], stdin=data)
         else:
-            run = sb.run(["report"] + flags, stdin=data)
+            run = sb.run(gl + ["report"] + flags, stdin=data)
         where = f"{ch}{' --csv' if csvf else ''}"
         if run.rc != 0:
             vs.append(Violation("exit_code", where, f"exit {run.rc} for a valid project; stderr {run.err[-300:]!r}", {"own": len(case["own"])}))
@@ -190,7 +192,7 @@ def eval_case(case):
                 vs.append(Violation("channel_output_differs", where, "stdout differs between file and stdin input"))
         own_fmt = any(("csv" if csvf else "json") in (o.formats or ["json"]) for o in case["own"])
         r.nontrivial = own_fmt or ch != "file"
-        r.classes += [ch, "csv" if csvf else "json"] + (["own_report_same_format"] if own_fmt else []) + (["crlf"] if case["crlf"] else [])
+        r.classes += [ch, "csv" if csvf else "json"] + [g.strip("-") for g in case.get("glob", [])] + (["own_report_same_format"] if own_fmt else []) + (["crlf"] if case["crlf"] else [])
         if any(not t.scheduled for t in obs.scen[0].tasks):
             r.classes.append("unschedulable_tasks")
         if r.nontrivial:
